@@ -143,6 +143,30 @@ func runApCase(raw json.RawMessage, w *TraceWriter) {
 				}
 			case "close":
 				errs = cls(t.Close())
+				// Close is not terminal for this transport (it empties the buffer); other transports over other buffers
+				// come and go meanwhile and must stay strangers
+				for k := 0; k < 3; k++ {
+					other := &bytes.Buffer{}
+					other.WriteString("decoy")
+					var dt interface {
+						Write([]byte) (int, error)
+						Close() error
+					}
+					if k%2 == 0 {
+						dt = apache.NewBufferTransport(other)
+					} else if x, ok := apache.NewDefaultTransport(other).(interface {
+						Write([]byte) (int, error)
+						Close() error
+					}); ok {
+						dt = x
+					}
+					if dt != nil {
+						dt.Write([]byte("other transport"))
+						if k == 2 {
+							dt.Close()
+						}
+					}
+				}
 			case "remaining":
 				ret = int(t.RemainingBytes())
 			case "flush":
